@@ -357,3 +357,41 @@ Definition set_rs_short (rs : bytes) : rs_outcome :=
   | [b] => if (0 <=? b) && (b <? 128) then RsOk else RsPanic
   | _ => RsError      (* not this branch *)
   end.
+
+(* ---- CSV/TSV input: the two parallel slices behind $i (interp.go getField, io.go ensureFields,
+        csvSplitter.scan) ------------------------------------------------------------- *)
+
+(* Only the LENGTHS of p.fields and p.fieldsIsTrueStr matter for "does getField index out of
+   range".  In CSV/TSV mode csvSplitter.scan stores the parsed fields of EVERY record it reads
+   into p.fields -- also for `getline var`, which must not touch $0 -- while p.fieldsIsTrueStr
+   is only rebuilt by ensureFields when p.haveFields is false. *)
+Record fstate : Type := { fs_fields : Z; fs_true : Z; fs_have : bool }.
+
+Inductive fop : Type :=
+| ORecord (n : Z)        (* the main loop reads a record with n fields: fields stored, haveFields := false *)
+| OGetlineVar (n : Z)    (* getline var / getline arr[i] reads a record with n fields: ONLY p.fields changes *)
+| ONF                    (* NF (or any use of the fields): ensureFields *)
+| OField (i : Z).        (* $i with i >= 1 *)
+
+Definition fs_init : fstate := {| fs_fields := 0; fs_true := 0; fs_have := false |}.
+
+Definition f_ensure (s : fstate) : fstate :=
+  if fs_have s then s else {| fs_fields := fs_fields s; fs_true := fs_fields s; fs_have := true |}.
+
+(* None = Go panics (index out of range in p.fieldsIsTrueStr[index-1]) *)
+Definition f_step (s : fstate) (o : fop) : option fstate :=
+  match o with
+  | ORecord n => Some {| fs_fields := n; fs_true := fs_true s; fs_have := false |}
+  | OGetlineVar n => Some {| fs_fields := n; fs_true := fs_true s; fs_have := fs_have s |}
+  | ONF => Some (f_ensure s)
+  | OField i =>
+      let s' := f_ensure s in
+      if fs_fields s' <? i then Some s'                    (* index > len(p.fields): "" *)
+      else if i <=? fs_true s' then Some s' else None      (* p.fieldsIsTrueStr[index-1] *)
+  end.
+
+Fixpoint f_run (s : fstate) (ops : list fop) : option fstate :=
+  match ops with
+  | [] => Some s
+  | o :: t => match f_step s o with Some s' => f_run s' t | None => None end
+  end.
